@@ -9,6 +9,7 @@ import NPModel.Refine.SoundFrames
 import NPModel.Refine.CleanFilter
 import NPModel.Refine.CleanFields
 import NPModel.Refine.SamplesFrame
+import NPModel.Refine.FieldSubsets
 namespace NP.C18
 open NP.State
 
@@ -186,6 +187,13 @@ open NP in
 theorem every_chain_stays_sound (ops : List AllOp) (F : NFrame Cell) (h : F.Sound) (F' : NFrame Cell)
     (hok : runAllChain F ops = .ok F') : F'.Sound :=
   runAllChain_sound ops F h F' hok
+
+open NP in
+/-- … and with **removing fields** (`nf[n] = nf[n].nest.without_field(…)`) and **selecting fields**
+    (`nf[n] = nf[n].nest[[…]]`) as further steps of the chain. -/
+theorem chains_with_field_removal_and_selection_stay_sound (ops : List FullOp) (F : NFrame Cell) (h : F.Sound)
+    (F' : NFrame Cell) (hok : runFullChain F ops = .ok F') : F'.Sound :=
+  runFullChain_sound ops F h F' hok
 
 open NP in
 /-- non-vacuity: the sample frame (a nested column in two chunks, the first a slice into a larger
